@@ -138,6 +138,13 @@ impl Prop for C06Prop {
                 _ => continue,
             };
             let want = i64r::eval(&e, p);
+            if want == RI::Err {
+                // C06 demands a returned Err here: a panic (possible only in one build profile) is a violation of C06 too
+                let o = eval(sc, Ev::I64, &case.input, &ph);
+                if let crate::api::Outcome::Panic(_, _) = o {
+                    return Err(Failure::new("i64/panic-instead-of-err", "Err", o.show()).with_case(Case { ev: Ev::I64, input: case.input.clone(), ph: ph.clone(), aux: vec![] }));
+                }
+            }
             let o = match eval_normal(sc, Ev::I64, &case.input, &ph) {
                 Some(o) => o,
                 None => continue,
